@@ -112,6 +112,9 @@ def run(ctx: RuleContext, p: Program) -> None:
     ctx.try_rule(round4.rule_id_cmp, p, 'ID-CMP')
     from . import c10
     ctx.try_rule(c10.rule_drop_refuse, p, 'DROP-REFUSE')
+    from . import nodesem
+    # the list protocol at token level: a refused call leaves store and items as they were; `w[i] = w[i]` (what `w[i] *= 2` ends with) is accepted
+    ctx.try_rule(nodesem.rule_node_sem, p, 'NODE-SEM', 3 if ctx.tier == 'quick' else 4)
     st = it.stats
     ctx.stats['effect_interpreter'] = {
         'entries': n, 'mutating_entries': mutating, 'skipped_same_signature_in_quick': ents.get('_skipped_same_signature', 0),
